@@ -166,11 +166,7 @@ impl<'v> From<f64> for NumRef<'v> {
 /// This is total eq per starlark spec, not Rust's partial eq.
 impl<'v> PartialEq for NumRef<'v> {
     fn eq(&self, other: &Self) -> bool {
-        if let (NumRef::Int(a), NumRef::Int(b)) = (self, other) {
-            a == b
-        } else {
-            StarlarkFloat::compare_impl(self.as_float(), other.as_float()) == Ordering::Equal
-        }
+        self.cmp(other) == Ordering::Equal
     }
 }
 
@@ -184,10 +180,13 @@ impl<'v> PartialOrd for NumRef<'v> {
 
 impl<'v> Ord for NumRef<'v> {
     fn cmp(&self, other: &Self) -> Ordering {
-        if let (NumRef::Int(a), NumRef::Int(b)) = (self, other) {
-            a.cmp(b)
-        } else {
-            StarlarkFloat::compare_impl(self.as_float(), other.as_float())
+        // Mixed comparisons are by mathematical value: converting the integer
+        // to a float first would make distinct large integers equal to the same float.
+        match (self, other) {
+            (NumRef::Int(a), NumRef::Int(b)) => a.cmp(b),
+            (NumRef::Float(a), NumRef::Float(b)) => StarlarkFloat::compare_impl(a.0, b.0),
+            (NumRef::Int(a), NumRef::Float(b)) => a.cmp_f64(b.0),
+            (NumRef::Float(a), NumRef::Int(b)) => b.cmp_f64(a.0).reverse(),
         }
     }
 }
